@@ -14,7 +14,9 @@
 // Ops whose documented precondition fails (line_break not a multiple of 4, empty
 // needle for replace, min_fields > limit) answer `bad-op` and are not executed.
 #include <algorithm>
+#include <csignal>
 #include <cstring>
+#include <unistd.h>
 #include <stdexcept>
 #include <string>
 #include <vector>
@@ -422,11 +424,41 @@ static bool execute(const std::vector<std::string>& t, std::string& out) {
     return false;
 }
 
+// A loop that no longer terminates must not hang the check (and its shrinker).  Every
+// operation gets 0.5 s of *CPU time* (ITIMER_VIRTUAL: a descheduled process does not count);
+// when it expires the handler jumps back into the main loop, which reports the line, answers
+// `HANG` and from then on answers every further line of that op with `HANG` at once.  A
+// wall-clock alarm is the last resort should the interrupted allocator be left locked.
+#include <csetjmp>
+#include <sys/time.h>
+static sigjmp_buf g_jmp;
+static volatile sig_atomic_t g_armed = 0;
+static void on_vtalarm(int) {
+    if (g_armed) { g_armed = 0; siglongjmp(g_jmp, 1); }
+}
+static void on_alarm(int) {
+    static const char m[] = "#VIOL harness watchdog: no progress for 60 s\n";
+    ssize_t r = write(1, m, sizeof(m) - 1);
+    (void)r;
+    _exit(3);
+}
+static void arm(long usec) {
+    struct itimerval tv;
+    tv.it_interval.tv_sec = 0; tv.it_interval.tv_usec = 0;
+    tv.it_value.tv_sec = usec / 1000000; tv.it_value.tv_usec = usec % 1000000;
+    setitimer(ITIMER_VIRTUAL, &tv, nullptr);
+}
+
 int main(int argc, char** argv) {
     std::ios::sync_with_stdio(false);
     (void)argc; (void)argv;
+    std::signal(SIGALRM, on_alarm);
+    std::signal(SIGVTALRM, on_vtalarm);
+    std::set<std::string> poisoned;
+    bool any_hang = false;
     std::string line;
     while (std::getline(std::cin, line)) {
+        alarm(60);
         std::vector<std::string> t = vh::tokens(line);
         if (t.empty()) { vh::answer(""); continue; }
         if (t[0] == "case") { vh::answer("case"); continue; }
@@ -440,10 +472,26 @@ int main(int argc, char** argv) {
         std::string out;
         g_op = args.empty() ? "" : args[0];
         bool ok = false;
-        try { ok = !args.empty() && execute(args, out); }
+        if (poisoned.count(g_op)) {
+            vh::viol(g_op + " hang: skipped, an earlier line of this op did not terminate; line: " + line);
+            vh::answer("HANG");
+            continue;
+        }
+        if (sigsetjmp(g_jmp, 1) != 0) {
+            arm(0);
+            poisoned.insert(g_op);
+            any_hang = true;
+            vh::viol(g_op + " hang: no answer within 0.5 s of CPU time on: " + line);
+            vh::answer("HANG");
+            continue;
+        }
+        g_armed = 1;
+        arm(500000);
+        try { ok = !args.empty() && execute(args, out); g_armed = 0; arm(0); }
         catch (const std::exception& e) {
             // no operation of this harness may let an exception other than the documented
             // std::runtime_error (answered `X`) escape
+            g_armed = 0; arm(0);
             vh::viol(g_op + " threw an unexpected exception (" + e.what() + ") on: " + line);
             ok = true; out = "EXC";
         }
@@ -463,5 +511,7 @@ int main(int argc, char** argv) {
         }
         vh::answer(out);
     }
+    alarm(0);
+    if (any_hang) { std::cout << std::flush; _exit(0); }   // the abandoned operation leaked on purpose
     return 0;
 }
